@@ -410,3 +410,12 @@ Definition ssa_tree (n : nat) (path : list (nat * nat)) : tree :=
 (* executable check that a tree uses every tensor 0..n-1 exactly once (sound: OptimalFacts.full_treeb_sound) *)
 Definition full_treeb (n : nat) (t : tree) : bool :=
   Nat.eqb (length (leaves t)) n && forallb (fun i => memb i (leaves t)) (seq 0 n).
+
+(* the network is connected (cut form): every non-empty proper set S of tensors has an index that
+   occurs on S and on some tensor j outside S *)
+Definition connected_prop (nodes : list legs) (nix : nat) : Prop :=
+  forall S, S <> 0%N ->
+    (forall k, N.testbit S (N.of_nat k) = true -> k < length nodes) ->
+    (exists i, i < length nodes /\ N.testbit S (N.of_nat i) = false) ->
+    exists j x, j < length nodes /\ N.testbit S (N.of_nat j) = false /\ x < nix /\
+                0 < cnt nodes S x /\ 0 < leg_count x (nth j nodes []).
